@@ -334,6 +334,56 @@ def check_c14(seed, tier):
                     fails.append(_f("C14", "C14.exception", name, f"comparison of blocks that differ ({desc}) raised {e!r}", dict(block=name, index=i, variation=desc), seed))
             if len(fails) > 20:
                 break
+    # whole files: equal exactly when version, slot count and block lists are
+    import os, shutil, tempfile
+    from basictdf import Tdf
+    d = tempfile.mkdtemp(prefix="verif_c14_")
+    try:
+        for i in range(6 if tier == "quick" else 40):
+            rng = random.Random(f"{seed}:c14file:{i}")
+            names = rng.sample(["Events", "EMG", "OpticalSetup", "Data3D", "ForceTorque3D", "PlatformsData", "PlatformsCalibration", "Calibration"], rng.randint(0, 3))
+            blocks = [gen.BLOCK_GEN[nm](rng) for nm in names]
+            if any(nm == "Calibration" and int(b.format) == 2 for nm, b in zip(names, blocks)):
+                continue
+            pa, pb, pc = (os.path.join(d, f"{x}{i}.tdf") for x in "abc")
+            for p in (pa, pb):
+                Tdf.new(p)
+                with Tdf(p).allow_write() as t:
+                    for b in blocks:
+                        t.add_block(b)
+            n += 1
+            case = dict(files=names, index=i)
+
+            def feq(p1, p2):
+                with Tdf(p1) as x, Tdf(p2) as y:        # comparison is used on open files (as upstream's own tests do)
+                    return bool(x == y)
+            try:
+                if not feq(pa, pb) or not feq(pa, pa):
+                    fails.append(_f("C14", "C14.file_equal", "Tdf", "two files holding the same blocks compare unequal", case, seed))
+                Tdf.new(pc)
+                with Tdf(pc).allow_write() as t:
+                    for b in blocks[:-1]:
+                        t.add_block(b)
+                    if blocks:
+                        for desc, v in _vary(names[-1], rng, blocks[-1])[:1]:
+                            t.add_block(v)
+                if blocks and (feq(pa, pc) or feq(pc, pa)):
+                    fails.append(_f("C14", "C14.file_differs", "Tdf", f"files whose last block differs compare equal", case, seed))
+                if blocks:
+                    os.remove(pc)
+                    Tdf.new(pc)
+                    with Tdf(pc).allow_write() as t:
+                        for b in blocks[:-1]:
+                            t.add_block(b)
+                    if feq(pa, pc) or feq(pc, pa):
+                        fails.append(_f("C14", "C14.file_differs", "Tdf", "files with different numbers of blocks compare equal", case, seed))
+            except Exception as e:
+                fails.append(_f("C14", "C14.exception", "Tdf", f"file comparison raised {e!r}", case, seed))
+            for p in (pa, pb, pc):
+                if os.path.exists(p):
+                    os.remove(p)
+    finally:
+        shutil.rmtree(d, ignore_errors=True)
     return dict(what="equality vs independent content comparison on generated pairs (real code)", cases=n, label="bounded",
                 bound=f"{reps} blocks per type x (self, decode, each single-field variation)"), fails
 
